@@ -43,8 +43,11 @@ def graph_module(rng):
                             es.append((names[i], names[j], "m")); es.append((names[i], names[c], "m"))
                         else:
                             ms.append("\tm%d: [2]%s,\n" % (m, names[j])); es.append((names[i], names[j], "m"))
-                else:
+                elif k < 0.6:
                     ms.append("\tm%d: [%s]i32,\n" % (m, names[j])); es.append((names[i], names[j], "m"))
+                else:
+                    # a named length behind a pointer is a dependency too (the pointee is not contained)
+                    ms.append("\tm%d: %s[%s]i32,\n" % (m, rng.choice(["&", "&&", "&[2]"]), names[j])); es.append((names[i], names[j], "m"))
             decls[i] = "struct %s\n{\n%s}\n" % (names[i], "".join(ms))
             edges[i] = es
     order = list(range(n))
